@@ -217,7 +217,54 @@ fn json_range_probe(a: &[String]) -> tantivy::Result<bool> {
     Ok(searcher.segment_readers().len() == 1 && matched == should)
 }
 
+/// `--sorted-segment <i64|u64> <a> <b>`: replays a counterexample of the sort-key obligation: an
+/// index sorted ascending by a fast field, one segment holding the two values (inserted in both
+/// orders, four documents); the segment must come out in ascending order of the field.
+fn sorted_segment_probe(a: &[String]) -> tantivy::Result<bool> {
+    use tantivy::schema::NumericOptions;
+    use tantivy::{IndexSettings, IndexSortByField, Order};
+    let ty = a[0].as_str();
+    let (x, y): (i128, i128) = (a[1].parse().unwrap(), a[2].parse().unwrap());
+    let mut sb = Schema::builder();
+    let opts = NumericOptions::default().set_fast().set_indexed();
+    let f = if ty == "i64" { sb.add_i64_field("v", opts) } else { sb.add_u64_field("v", opts) };
+    let index = Index::builder()
+        .schema(sb.build())
+        .settings(IndexSettings {
+            sort_by_field: Some(IndexSortByField { field: "v".to_string(), order: Order::Asc }),
+            ..Default::default()
+        })
+        .create_in_ram()?;
+    let mut w: IndexWriter = index.writer_with_num_threads(1, 50_000_000)?;
+    for v in [x, y, y, x] {
+        let mut d = tantivy::TantivyDocument::default();
+        if ty == "i64" {
+            d.add_i64(f, v as i64);
+        } else {
+            d.add_u64(f, v as u64);
+        }
+        w.add_document(d)?;
+    }
+    w.commit()?;
+    let searcher = index.reader()?.searcher();
+    let seg = searcher.segment_reader(0);
+    let mut vals: Vec<i128> = Vec::new();
+    if ty == "i64" {
+        let col = seg.fast_fields().i64("v")?;
+        for d in 0..seg.max_doc() {
+            vals.push(col.first(d).unwrap() as i128);
+        }
+    } else {
+        let col = seg.fast_fields().u64("v")?;
+        for d in 0..seg.max_doc() {
+            vals.push(col.first(d).unwrap() as i128);
+        }
+    }
+    Ok(searcher.segment_readers().len() == 1 && vals.len() == 4 && vals.windows(2).all(|p| p[0] <= p[1]))
+}
+
 mod probe_bg_merge;
+mod probe_union_freqless;
 mod probe_update_merge;
 
 fn main() -> tantivy::Result<()> {
@@ -229,12 +276,20 @@ fn main() -> tantivy::Result<()> {
             "update_survives_uncommitted_merge" => {
                 std::panic::catch_unwind(|| matches!(probe_update_merge::run(), Ok(()))).unwrap_or(false)
             }
+            "topk_union_with_freqless_term" => {
+                std::panic::catch_unwind(|| matches!(probe_union_freqless::run(), Ok(()))).unwrap_or(false)
+            }
             "uncommitted_delete_not_published_by_background_merge" => {
                 std::panic::catch_unwind(|| matches!(probe_bg_merge::run(), Ok(()))).unwrap_or(false)
             }
             _ => false,
         };
         println!("{{\"n\":0,\"api\":\"{}\",\"ok\":{}}}", name, ok);
+        return Ok(());
+    }
+    if let Some(p) = args.iter().position(|a| a == "--sorted-segment") {
+        let r = sorted_segment_probe(&args[p + 1..]);
+        println!("{{\"n\":0,\"api\":\"sorted_segment\",\"ok\":{}}}", matches!(r, Ok(true)));
         return Ok(());
     }
     if let Some(p) = args.iter().position(|a| a == "--json-range") {
